@@ -131,6 +131,11 @@ def generic_checks(rep: OpReport, rec: PathRec, cls: str) -> None:  # noqa: PLR0
         props = props_for(side, cls, rule) | (extra_props or set())
         rep.oblige(props, rule, c, what, ok, Finding(rule, c, what, f"{short(c)}: {what}", detail))
 
+    for e in rec.events:
+        if e[0] == "ABSPOS":
+            ok_abs = cls == "_SOI" and e[1] == 0
+            rep.oblige({"C16"}, "ABSPOS", c, "only SOI compares the position with an absolute offset (0)" if ok_abs else f"the position is compared with the absolute offset {e[1]}", ok_abs,
+                       Finding("ABSPOS", c, f"the position is compared with the absolute offset {e[1]}", f"{short(c)}: state.pos is compared with the constant {e[1]}; parsing from start_pos=k would differ from parsing the suffix", detail))
     raised = isinstance(rec.result, str) and rec.result.startswith("raise:")
     ob("RAISE", f"raises {str(rec.result)[6:]}" if raised else "does not raise", not raised)
     if raised:
@@ -143,6 +148,8 @@ def generic_checks(rep: OpReport, rec: PathRec, cls: str) -> None:  # noqa: PLR0
             ob(rule if rule not in ("RAWSNAP", "STATEWRITE", "STACK") else "R2", _norm_note(msg), False)
     if not any(r == "R2" for r, _ in rec.notes):
         ob("R2", "no attempt starts from a dirty state", True)
+    if any(e[0] in ("ADV", "SETPOS", "MATCH") for e in rec.events) and not any(r == "POS" for r, _ in rec.notes):
+        ob("POS", "every input access is at a position and every position write is a justified advance or a saved position", True)
     if succ:
         ob("R2", "success exit in a dirty state (failed attempt not rewound)" if rec.dirty else "success exit state is clean", not rec.dirty)
         if cls not in RULE_CLASSES:
